@@ -20,10 +20,10 @@ func k13() []interface{} {
 
 var k13Names = []string{"nil", "true", "false", "1", "2", "1.0", "2.5", `"a"`, `"1"`, "L[1]", "L[]", `O{k:1}`, "O{}"}
 
-const c17Histories = 6
+const c17Histories = 8
 const c17Aliases = 3
 
-var c17HistNames = []string{"NewList(v...)", "NewList()+Add each", "NewList(v...,x,x)+Pop+Pop", "NewList(x,v...)+Delete(0)", "NewListOf(nil,n)+Replace each", "NewListFrom([]any)"}
+var c17HistNames = []string{"NewList(v...)", "NewList()+Add each", "NewList(v...,x,x)+Pop+Pop", "NewList(x,v...)+Delete(0)", "NewListOf(nil,n)+Replace each", "NewListFrom([]any)", "runs of equal values by NewListOf(v,k), joined by Concat", "SubList(0,0) of (runs by NewListOf joined by Concat)"}
 var c17AliasNames = []string{"direct handle", "via parent list Get", "via parent object Get"}
 
 // buildHist builds a list holding vals through one of several histories (different private capacity).
@@ -54,8 +54,23 @@ func buildHist(h int, vals []interface{}, extra interface{}) at.List {
 			l.Replace(i, v)
 		}
 		return l
-	default:
+	case 5:
 		return at.NewListFrom(append([]interface{}{}, vals...))
+	default:
+		// maximal runs of identical consecutive values are built by NewListOf (one shared field per run)
+		l := at.NewList()
+		for i := 0; i < len(vals); {
+			j := i
+			for j < len(vals) && sameVal(vals[j], vals[i]) {
+				j++
+			}
+			l = l.Concat(at.NewListOf(vals[i], j-i))
+			i = j
+		}
+		if h == 7 {
+			return l.SubList(0, 0)
+		}
+		return l
 	}
 }
 
